@@ -113,16 +113,19 @@ BaseReq == [rp |-> "r1", user |-> "u1", algs |-> <<"ES256">>, exclude |-> <<>>, 
 
 UvOk(p, v) == [kind |-> "ok", pres |-> p, verif |-> v, err |-> 0]
 UvErr(code) == [kind |-> "err", pres |-> FALSE, verif |-> FALSE, err |-> code]
+UvAsked == [kind |-> "asked", pres |-> TRUE, verif |-> FALSE, err |-> 0]     \* verifies exactly when a call requires it
 BaseEnv == [uv |-> UvOk(TRUE, TRUE), faults |-> <<0, 0, 0>>, cancelAt |-> -1]
 
 Cer(api, op, req, env) == [api |-> api, op |-> op, req |-> req, env |-> env]
+\* a change of the environment between two ceremonies (consumed by the action Reconfig)
+Env(u, p, d) == [api |-> "env", op |-> "reconfig", req |-> [uvCap |-> u, upCap |-> p, disc |-> d], env |-> BaseEnv]
 
 -----------------------------------------------------------------------------
 (* C04: the complete product                                                *)
 
 C04_Cfgs == { [BaseCfg EXCEPT !.uvCap = u, !.upCap = p] : u \in {"none", "unconfigured", "configured"}, p \in BOOLEAN }
 C04_Stores == { << <<>>, <<Cred("c1", "r1", "u1", Ctr(0, 7), "none")>> >> }
-C04_Answers == { UvOk(p, v) : p \in BOOLEAN, v \in BOOLEAN } \cup { UvErr(39), UvErr(47) }
+C04_Answers == { UvOk(p, v) : p \in BOOLEAN, v \in BOOLEAN } \cup { UvErr(39), UvErr(47), UvAsked }
 C04_Cers ==
     { << Cer("ctap2", op, [BaseReq EXCEPT !.rk = rk, !.up = up, !.uv = uv, !.pinAuth = pin],
              [BaseEnv EXCEPT !.uv = a]) >> :
@@ -215,7 +218,7 @@ C08_Cfgs == { [BaseCfg EXCEPT !.hmac = "withoutuv"],
 C08_Stores == { << <<Cred("c1", "r1", "u1", a, "both"), Cred("c2", "r1", "u2", b, "none")>> >> :
                   a \in C08_Ctrs, b \in {NoCtr, Ctr(0, 5)} }
 C08_Ga(id, p) == Cer("ctap2", "ga", [BaseReq EXCEPT !.allow = <<id>>, !.allowGiven = TRUE,
-                                                    !.prf = IF p /\ id = "c1" THEN PrfOne ELSE NoPrfReq], BaseEnv)
+                                                    !.prf = IF p THEN PrfOne ELSE NoPrfReq], BaseEnv)
 C08_Steps == { C08_Ga(id, p) : id \in {"c1", "c2"}, p \in BOOLEAN } \cup
              { Cer("ctap2", "mc", [BaseReq EXCEPT !.user = "u3"], BaseEnv) }
 C08_Cers == UNION { [1..n -> C08_Steps] : n \in 1..3 }
@@ -302,6 +305,20 @@ C11c_Cers ==
          Cer("client", "ga", [BaseCReq EXCEPT !.uvreq = u], [BaseEnv EXCEPT !.uv = UvOk(TRUE, u # "discouraged")]) >> :
         rk \in {"absent", "discouraged", "preferred", "required"}, rr \in BOOLEAN, cp \in {"absent", "false", "true"},
         u \in {"preferred", "discouraged"} }
+    \cup
+    \* the whole authenticatorSelection member absent: no resident key is asked for
+    { << Cer("client", "mc", [BaseCReq EXCEPT !.authSel = FALSE, !.credProps = cp], BaseEnv),
+         Cer("client", "ga", BaseCReq, BaseEnv) >> : cp \in {"absent", "true"} }
+    \cup
+    \* the store's capability changes between ceremonies (after a capability query / a sign-in): what is asked of the
+    \* store NOW decides
+    { << Cer("ctap2", "info", BaseReq, BaseEnv), Env("configured", TRUE, d2),
+         Cer("client", "mc", [BaseCReq EXCEPT !.residentKey = rk, !.credProps = "true", !.user = "u2"], BaseEnv) >> :
+        d2 \in {"full", "nondisc", "forced"}, rk \in {"required", "preferred", "discouraged"} }
+    \cup
+    { << Cer("client", "ga", BaseCReq, BaseEnv), Env("configured", TRUE, d2),
+         Cer("ctap2", "mc", [BaseReq EXCEPT !.rk = k, !.user = "u2"], BaseEnv) >> :
+        d2 \in {"full", "nondisc", "forced"}, k \in BOOLEAN }
 
 \* C02 through the client
 C02c_Cfgs == { [BaseCfg EXCEPT !.idLen = n, !.counterOn = c] : n \in {16, 64}, c \in BOOLEAN }
@@ -395,6 +412,17 @@ C02c_UnkCers ==
          Cer("client", "mc", [WithDom(BaseCReq, d) EXCEPT !.user = "u2", !.exclude = x, !.excludeGiven = TRUE, !.unkType = TRUE], BaseEnv) >> :
         d \in {DomOk1, DomOk2}, x \in {<<"n1">>, <<"x1">>, <<"x1", "n1">>} }
 
+\* C08 through the client: one ceremony moves the counter by exactly one - also when the authenticator refuses the
+\* first thing the client asks of it (gated secret only, verification discouraged, PRF requested)
+C08c_Cfgs == { [BaseCfg EXCEPT !.hmac = h] : h \in {"uvonly", "withoutuv"} }
+C08c_Stores == { << <<Cred("c1", "r1", "u1", Ctr(0, 4), hm), Cred("c2", "r1", "u2", NoCtr, hm)>> >> : hm \in {"uv", "both", "none"} }
+C08c_Cers ==
+    { << Cer("client", "ga", [WithCprf(BaseCReq, c) EXCEPT !.uvreq = u, !.allow = <<id>>, !.allowGiven = TRUE],
+             [BaseEnv EXCEPT !.uv = a]),
+         Cer("client", "ga", [BaseCReq EXCEPT !.allow = <<id>>, !.allowGiven = TRUE], BaseEnv) >> :
+        c \in {NoCprf, [kind |-> "prf", eval |-> "one", byCred |-> <<>>, byCredGiven |-> FALSE, badlen |-> FALSE]},
+        u \in {"required", "discouraged"}, a \in {UvOk(TRUE, TRUE), UvOk(TRUE, FALSE), UvAsked}, id \in {"c1", "c2"} }
+
 \* reduced client configurations for the quick tier
 C03cq_Cers == { c \in C03c_Cers : c[3].req.chal = "c32" /\ c[3].req.cdmode # "extra" /\ c[1].req.residentKey = "required" } \cup C03c_UnkCers
 C02cq_Cers == { c \in C02c_Cers : Len(c) = 3 \/ c[1].req.chal \in {"c0", "c32"} } \cup C02c_UnkCers
@@ -408,7 +436,6 @@ C18i_Cfgs == { [BaseCfg EXCEPT !.hmac = h, !.uvCap = u, !.upCap = p, !.disc = d,
                  d \in {"full", "nondisc", "forced"}, t \in {"default", "empty", "usb"} }
 \* C14: what the client emits when the authenticator has the default transports, none, or one
 C14e_Cfgs == { [BaseCfg EXCEPT !.tr = t, !.hmac = h, !.mc = TRUE] : t \in {"default", "empty", "usb"}, h \in {"off", "withoutuv"} }
-Env(u, p, d) == [api |-> "env", op |-> "reconfig", req |-> [uvCap |-> u, upCap |-> p, disc |-> d], env |-> BaseEnv]
 C18i_Cers == { << Cer("ctap2", "info", BaseReq, [BaseEnv EXCEPT !.cancelAt = k]) >> : k \in {-1, 0, 1} }
               \* the state of the authenticator includes what its environment reports now: capabilities asked before
               \* and after the user enrols / the store changes its support
